@@ -10,17 +10,22 @@ pub struct Poisson {
 
 impl Poisson {
     pub fn arrival_probability(&self, delta: Duration, njobs: usize) -> f64 {
-        // quick and dirty naive factorial: k!
-        let mut denominator = 1.0;
+        let mean = Time::from(delta) as f64 * self.rate;
+        if mean <= 0.0 {
+            // degenerate case: no arrivals at all
+            return if njobs == 0 { 1.0 } else { 0.0 };
+        }
+        // Evaluate e^(-mean) * mean^k / k! in log space, as
+        // -mean + sum_{x=1..k} ln(mean / x), to avoid the overflow of
+        // the power and the factorial and the underflow of e^(-mean)
+        // that the naive formula suffers from for large means.
+        let mut log_prob = -mean;
         for x in 1..(njobs + 1) {
             #[cfg(feature = "verif")]
             crate::verif_hooks::tick("poisson::arrival_probability");
-            denominator *= x as f64;
+            log_prob += (mean / x as f64).ln();
         }
-        let mean = Time::from(delta) as f64 * self.rate;
-        let mut numerator = (-mean).exp(); // e^(- rate * delta)
-        numerator *= mean.powi(njobs as i32); // (rate * delta)**k
-        numerator / denominator
+        log_prob.exp()
     }
 
     pub fn approximate(&self, epsilon: f64) -> ApproximatedPoisson {
